@@ -40,12 +40,18 @@ def bounds(tier):
     return dict(undiscounted=[s.name for s in UND], discounted=[s.name for s in DISC], gammas=['1/2', '9/10', '1'], iteration_caps=['2', '3', '|A|^S+3'])
 
 
-def _run(sx, sh, rew, cap):
+def _run(sx, sh, rew, cap, warm=False):
     from msdm.algorithms.multichainpolicyiteration import MultichainPolicyIteration
     mdp = build_mdp(sx, sh, rew)
+    planner = MultichainPolicyIteration(max_iterations=cap)
+    if warm:
+        # the same planner object first plans on another problem of the same size and discount (constant rewards that make the
+        # first listed action optimal everywhere, so the all-first-action policy is evaluated there)
+        rw = {k: sx.const(F(1 if k[1] == sh.avail[k[0]][0] else 0)) for k in rew}
+        planner.plan_on(build_mdp(sx, sh, rw))
     try:
         with sx.must_not_raise('plan_on', allowed=(UnboundLocalError,)):
-            return MultichainPolicyIteration(max_iterations=cap).plan_on(mdp)
+            return planner.plan_on(mdp)
     except UnboundLocalError:
         sx.cut('iteration cap reached before the first bias step')
 
@@ -67,7 +73,7 @@ def _policy(sx, sh, res, absorbing):
     return pol
 
 
-def discounted(sx, shape, gamma, cap=None, und=False):
+def discounted(sx, shape, gamma, cap=None, und=False, warm=False):
     """und=True: the skeletons of the undiscounted runs (several self-looping non-absorbing states) with a discount below 1"""
     sh = (UND if und else DISC)[shape].with_(gamma=F(gamma))
     g = sh.gamma
@@ -75,7 +81,7 @@ def discounted(sx, shape, gamma, cap=None, und=False):
     rew = sym_rewards(sx, sh, -1, 1)
     cap = cap or (sh.A ** sh.S) + 3
     with facade(sx):
-        res = _run(sx, sh, rew, cap)
+        res = _run(sx, sh, rew, cap, warm)
         if not res.converged:
             sx.cut('iteration cap')
         absorbing = implicit_absorbing(sh, rew)
@@ -92,13 +98,13 @@ def discounted(sx, shape, gamma, cap=None, und=False):
         sx.observe('V', [res.state_value[L[s]] for s in range(sh.S)])
 
 
-def undiscounted(sx, shape, cap=None):
+def undiscounted(sx, shape, cap=None, warm=False):
     sh = UND[shape]
     L = sh.slabels
     rew = sym_rewards(sx, sh, -1, 1, per_next_state=False)
     cap = cap or (sh.A ** sh.S) + 3
     with facade(sx):
-        res = _run(sx, sh, rew, cap)
+        res = _run(sx, sh, rew, cap, warm)
         if not res.converged:
             sx.cut('iteration cap / no fixed point')
         absorbing = implicit_absorbing(sh, rew)
@@ -142,6 +148,9 @@ def jobs(tier):
     for i, sh in enumerate(UND):
         for cap in [None, 2, 3]:
             yield ('undiscounted', dict(shape=i, cap=cap), dict(o, cost=5))
+    for i, sh in enumerate(UND):
+        yield ('undiscounted', dict(shape=i, warm=True), dict(o, cost=5))
+        yield ('discounted', dict(shape=i, gamma='9/10', und=True, warm=True), dict(o, cost=5))
     for i, sh in enumerate(DISC):
         if tier == 'quick' and sh.name == 'full3':
             continue
